@@ -284,6 +284,10 @@ INTRIN["_mm512_set_epi64"] = ("Avx512.set_epi64", "vvvvvvvv")
 INTRIN["_mm512_set4_epi64"] = ("Avx512.set4_epi64", "vvvv")
 INTRIN["_mm512_set1_epi64"] = ("Avx512.set1_epi64", "v")
 INTRIN["_mm512_mask_add_epi64"] = ("Avx512.mask_add_epi64", "vvvv")
+INTRIN["_mm512_mask_sub_epi64"] = ("Avx512.mask_sub_epi64", "vvvv")
+INTRIN["_mm512_broadcast_i64x4"] = ("Avx512.broadcast_i64x4", "v")
+for _n in ("cmplt_epu64_mask", "cmple_epu64_mask", "cmpeq_epu64_mask", "cmpneq_epu64_mask"):
+    INTRIN["_mm512_" + _n] = ("Avx512." + _n, "vv")
 INTRIN["_mm512_mask_blend_epi32"] = ("Avx512.mask_blend_epi32", "vvv")
 INTRIN["_mm512_permutex2var_epi64"] = ("Avx512.permutex2var_epi64", "vvv")
 INTRIN["_mm512_loadu_si512"] = ("Avx512.load", "m")
